@@ -9,5 +9,6 @@ for id in "${IDS[@]}"; do
   extra=(); [ "$P" = "C20" ] && [ "$K" = "2" ] && extra=(C20 C17)
   [ "$id" = "C14-6" ] && extra=(C14 C17 C20)   # independence of copies: the property of C17 / C20
   [ "$id" = "C18-6" ] && extra=(C18 C02)
+  { [ "$id" = "C15-9" ] || [ "$id" = "C15-10" ]; } && extra=(C15 C16)   # script stores into typed containers / slice length histories: C16's workload
   ./seedcheck.sh "$P" "$K" "${extra[@]}" | tee -a seeded/RESULTS.txt
 done
